@@ -23,7 +23,13 @@ pub struct PaddingFactory {
 }
 
 /// Global padding factory
-static DEFAULT_FACTORY: std::sync::OnceLock<Arc<PaddingFactory>> = std::sync::OnceLock::new();
+/// Process-wide default scheme. It is replaceable (not write-once): every scheme pushed by a
+/// server must take effect, also after the built-in default has been handed out.
+static DEFAULT_FACTORY: std::sync::RwLock<Option<Arc<PaddingFactory>>> =
+    std::sync::RwLock::new(None);
+
+/// Set once a pushed scheme has replaced the built-in default.
+static DEFAULT_UPDATED: std::sync::atomic::AtomicBool = std::sync::atomic::AtomicBool::new(false);
 
 impl PaddingFactory {
     /// Create a new PaddingFactory from raw scheme bytes
@@ -53,8 +59,13 @@ impl PaddingFactory {
     /// with creating a new factory. This returns a shared singleton instance.
     #[allow(clippy::should_implement_trait)]
     pub fn default() -> Arc<Self> {
+        if let Some(factory) = DEFAULT_FACTORY.read().unwrap().as_ref() {
+            return factory.clone();
+        }
         DEFAULT_FACTORY
-            .get_or_init(|| {
+            .write()
+            .unwrap()
+            .get_or_insert_with(|| {
                 Arc::new(
                     Self::new(DEFAULT_PADDING_SCHEME.as_bytes())
                         .expect("default padding scheme should be valid"),
@@ -63,15 +74,23 @@ impl PaddingFactory {
             .clone()
     }
 
-    /// Update the default padding factory
     pub fn update_default(raw_scheme: &[u8]) -> Result<(), String> {
         let factory = Arc::new(Self::new(raw_scheme)?);
-        DEFAULT_FACTORY
-            .set(factory)
-            .map_err(|_| "failed to update default factory".to_string())
+        *DEFAULT_FACTORY.write().unwrap() = Some(factory);
+        DEFAULT_UPDATED.store(true, std::sync::atomic::Ordering::SeqCst);
+        Ok(())
     }
 
-    /// Get the stop value
+    /// The scheme a session created now has to use: the most recently pushed scheme if a
+    /// server has pushed one during the life of the process, otherwise `initial`.
+    pub fn effective(initial: &Arc<Self>) -> Arc<Self> {
+        if DEFAULT_UPDATED.load(std::sync::atomic::Ordering::SeqCst) {
+            Self::default()
+        } else {
+            initial.clone()
+        }
+    }
+
     pub fn stop(&self) -> u32 {
         self.stop
     }
